@@ -197,6 +197,22 @@ def mk_elem(it) -> Term:
     return ("elem", it)
 
 
+def call_args(t, names: Sequence[str]) -> Optional[Tuple[Term, ...]]:
+    """the arguments of call term t in the order of the parameter `names`, whether they were passed positionally or by
+    keyword; None if that cannot be told (star arguments, unknown keyword, missing argument)"""
+    if not is_call_of(t):
+        return None
+    pos, kws = t[2], dict(t[3])
+    if any(p[:1] == ("uop",) for p in pos) or "**" in kws or len(pos) > len(names):
+        return None
+    out = list(pos)
+    for n in names[len(pos):]:
+        if n not in kws:
+            return None
+        out.append(kws.pop(n))
+    return tuple(out) if not kws else None
+
+
 def coord(t):
     """(array, position) of an element access: X[i] -> (X, i); the element of X in a loop over X's positions -> (X, index X)"""
     if t[:1] == ("sub",):
@@ -424,6 +440,11 @@ class Sym:
             pos = tuple(("uop", "*", rec(a.value)) if isinstance(a, ast.Starred) else rec(a) for a in e.args)
             kws = tuple((kw.arg or "**", rec(kw.value)) for kw in e.keywords)
             f = rec(e.func)
+            # getattr(x, "name"[, default]) with a literal name is x.name (or the default)
+            if f == ("glob", "getattr") and len(pos) in (2, 3) and not kws and pos[1][:1] == ("const",) \
+                    and pos[1][1][:1] in ("'", '"') and "getattr" not in self.locals:
+                at_ = ("attr", pos[0], pos[1][1][1:-1])
+                return at_ if len(pos) == 2 else mk_alt([at_, pos[2]], self.max_alts, "getattr")
             nts = _namedtuples_of(getattr(self.cx, "module", None))
             if nts:
                 # nt._replace(f=v) is the record with that field changed; **nt._asdict() are its fields as keywords
@@ -556,6 +577,10 @@ class Sym:
             self._bind_target(g.target, mk_elem(it), env)
             for c in g.ifs:
                 guards.append((True, self._of(c, at, depth, env)))
+                # `if (x := f(v)) is not None` binds x for the element expression
+                for n in ast.walk(c):
+                    if isinstance(n, ast.NamedExpr) and isinstance(n.target, ast.Name):
+                        env[n.target.id] = self._of(n.value, at, depth, env)
         kind = {ast.ListComp: "list", ast.SetComp: "set", ast.GeneratorExp: "gen", ast.DictComp: "dict"}[type(e)]
         if isinstance(e, (ast.ListComp, ast.SetComp)) and len(e.generators) == 1 and not guards and isinstance(e.elt, ast.Name) \
                 and isinstance(e.generators[0].target, ast.Name) and e.elt.id == e.generators[0].target.id:
@@ -630,6 +655,27 @@ class Sym:
             self._memo[mkey] = res
         return res
 
+    def _signature_of(self, func) -> Optional[tuple]:
+        """positional parameter names (without self) of the callee when it is a function / class of this module or a method
+        of this class called on self; None if unknown or if it takes *args"""
+        mod = getattr(self.cx, "module", None)
+        cls = getattr(self.cx, "cls", None)
+        fn = None
+        drop = 0
+        if isinstance(func, ast.Name) and mod is not None and func.id not in self.locals:
+            if func.id in getattr(mod, "functions", {}):
+                fn = mod.functions[func.id]
+            elif func.id in getattr(mod, "classes", {}) and "__init__" in mod.classes[func.id].methods:
+                fn, drop = mod.classes[func.id].methods["__init__"], 1
+        elif isinstance(func, ast.Attribute) and isinstance(func.value, ast.Name) and func.value.id == self.selfname and cls is not None \
+                and func.attr in cls.methods and func.attr not in cls.properties:
+            fn = cls.methods[func.attr]
+            decs = [A.dotted(d) or "" for d in fn.decorator_list]
+            drop = 0 if "staticmethod" in decs else 1
+        if fn is None or fn.args.vararg is not None or fn.args.posonlyargs:
+            return None
+        return tuple(a.arg for a in fn.args.args)[drop:]
+
     def _known_not(self, name: str, at: int) -> set:
         """terms (None, or a global sentinel name) that some test dominating `at` established `name` is not -- provided the
         name was not rebound since"""
@@ -698,7 +744,9 @@ class Sym:
                 # stands for its initial contents only
                 self._acc_busy.add((name, sd.nid))
                 try:
-                    contrib = self._contributions(name, sd, weak, depth, cenv)
+                    # mutations that can follow this binding (those before it belong to an earlier binding of the name)
+                    weak_here = [w for w in weak if w.nid != sd.nid and self.cfg.path_avoiding(sd.nid, w.nid, [])]
+                    contrib = self._contributions(name, sd, weak_here, depth, cenv)
                 finally:
                     self._acc_busy.discard((name, sd.nid))
                 if contrib is not None:
